@@ -136,7 +136,10 @@ def run(prop, tier):
                 configs += [("e", "d", exe)]      # three threads: bound 2 only
                 if tier != "quick":
                     configs += [("e", "t", exe)]
+            outer_bound = bound
             for (sc, mode, xe) in configs:
+                # three threads in the quick tier: one preemption (two in the thorough tier)
+                bound = 1 if (sc == "e" and tier == "quick") else outer_bound
                 small = xe is exe_small
                 if ctx.out_of_time(0.8):
                     ctx.cap("scenario %s/%s not started" % (sc, mode))
@@ -198,7 +201,7 @@ def run(prop, tier):
                 ctx.sample({"scenario": sc, "mode": mode, "schedule": roots[len(roots) // 2] if roots else []})
 
             if len(ctx.cov["caps_hit"]) == caps_before and not ctx.nviol:
-                completed_bound = bound
+                completed_bound = outer_bound
         ctx.cov["preemption_bound_completed"] = completed_bound
         # ---- free-running ThreadSanitizer pass of the same bodies (supporting evidence for the choice of scheduling points)
         try:
